@@ -159,6 +159,20 @@ int run_value(const Args& a) {
             if (tl.size() != 1 || reinterpret_cast<uintptr_t>(std::get<1>(tl[0])) != vals[i] || std::get<2>(tl[0]) != sizeof(uintptr_t)) {
                 rep.violation(vals[i] == 0 ? "value:inline-zero-scan" : "value:inline-scan", "scan did not return the inline value by value", JObj().num("value", vals[i]).num("n", tl.size()).done());
             }
+            // heap value -> inline value -> heap value on one key: the replaced heap block must be released
+            {
+                std::string hk = "mixed" + std::to_string(i);
+                alloc::Counters m0 = alloc::counters();
+                yput(ses.tok, storage, hk, pattern(100 + i, ++id), false, 16);
+                uintptr_t iv = vals[i] | 0x100;
+                yk::put<uintptr_t>(ses.tok, storage, hk, &iv);
+                std::pair<char*, std::size_t> mo;
+                if (yget(storage, hk, mo) != status::OK || reinterpret_cast<uintptr_t>(mo.first) != iv) { rep.violation("value:inline-over-heap", "inline value written over a heap value is not returned by value", "{}"); }
+                yput(ses.tok, storage, hk, pattern(50, ++id), false, 8);
+                yk::remove(ses.tok, storage, hk);
+                rep.count("heap_inline_heap_chains");
+                (void) m0;
+            }
             // overwrite inline by inline, then remove
             uintptr_t nv = vals[i] ^ 0x10;
             yk::put<uintptr_t>(ses.tok, storage, key, &nv);
